@@ -7,6 +7,7 @@ are compared with the model's "key existed before this row was written".
 """
 import collections
 import copy
+import datetime
 import json
 import os
 import sqlite3
@@ -45,6 +46,8 @@ def norm_db(v, typ):
         return float(v)
     if typ == 'boolean':
         return bool(v)
+    if typ == 'date':
+        return v.isoformat() if isinstance(v, datetime.date) else str(v)
     return v
 
 
@@ -57,6 +60,8 @@ def norm_model(v, typ):
         return float(v)
     if typ == 'boolean':
         return bool(v)
+    if typ == 'date':
+        return v.isoformat()
     return v
 
 
@@ -67,6 +72,8 @@ def run_case(case):
     cov = {'mode_seq': {}, 'config': {}}
     viol = []
     fields = [('k1', 'integer'), ('k2', 'string'), ('name', 'string'), ('val', 'number'), ('flag', 'boolean')]
+    if rng.random() < 0.5:
+        fields.append(('day', 'date'))
     if rng.random() < 0.5:
         fields.append(('arr', 'array'))
     if rng.random() < 0.5:
@@ -119,6 +126,8 @@ def run_case(case):
             r.update({'name': rng.choice(['n%d-%d' % (di, i), 'żółć', None]),
                       'val': rng.choice([1.5, -2.25, 0.0, None, 100.0]),
                       'flag': rng.choice([True, False, None])})
+            if 'day' in typ:
+                r['day'] = rng.choice([datetime.date(2020, 1, 31), datetime.date(1999, 12, 1), None])
             if 'arr' in typ:
                 r['arr'] = rng.choice([[1, 2], ['a', {'b': None}], [], None])
             if 'obj' in typ:
